@@ -392,6 +392,31 @@ def order_facts(conds, before=None):
     return out
 
 
+def check_overflow_profile(ctx):
+    """A-OVF is an assumption of every rule that reads a primitive `+`, `-`, `*` or `+=` as aborting on overflow; it holds iff the
+    release profile (and no per-package override of it) keeps overflow-checks on.  The tests run in the dev profile, where the
+    checks are always on, so nothing else notices when this is switched off."""
+    import os
+    import re
+    from .extract import REPO
+    pre = os.environ.get("CW_FACTS_DIR")        # development hook (tools/corpus.py): stored facts come with their tree's manifest
+    src = os.path.join(pre, "Cargo.toml") if pre and os.path.exists(os.path.join(pre, "Cargo.toml")) else os.path.join(REPO, "Cargo.toml")
+    try:
+        txt = open(src).read()
+    except OSError:
+        txt = ""
+    txt = re.sub(r"#[^\n]*", "", txt)
+    m = re.search(r"^\[profile\.release\]\s*$(.*?)(^\[|\Z)", txt, re.S | re.M)
+    ok = bool(m and re.search(r"^\s*overflow-checks\s*=\s*true\s*$", m.group(1), re.M))
+    off = re.findall(r"^\[(profile\.release\.[^\]]+)\]\s*$(?:(?!^\[).)*?^\s*overflow-checks\s*=\s*false", txt, re.S | re.M)
+    ctx.ob("A-OVF", "Cargo.toml [profile.release] overflow-checks", ok and not off,
+           detail="overflow-checks = true missing from [profile.release]%s: primitive +, -, * and += on u64 / u128 (vote tallies, total "
+                  "weights, id counters) would wrap silently in the deployed build" % (" or switched off in [%s]" % off[0] if off else ""),
+           trivial=True)
+    ctx.rule_texts.setdefault("A-OVF", "release profile keeps overflow-checks = true (no per-package override switches it off): primitive "
+                                       "integer arithmetic aborts instead of wrapping")
+
+
 def config_as_configured(ctx, rule, crate, item, fields, label):
     """instantiate stores the named fields of the configuration exactly as the message gave them (no narrowing, rescaling or
     substitution on the way into storage): everything later is decided against the stored copy"""
